@@ -32,7 +32,8 @@ META = {
 def configs(tier):
     nw = 5 if tier == 'quick' else 10
     ns = 8 if tier == 'quick' else 16
-    cfgs = [{'group': 'welford_step'}, {'group': 'welford_base'}, {'group': 'welford_linear'},
+    cfgs = [{'group': 'welford_step'}, {'group': 'welford_base'}, {'group': 'welford_linear'}, {'group': 'welford_reads', '_cost': 50},
+            {'group': 'smooth_reads'},
             {'group': 'smooth_step'}, {'group': 'smooth_base'}, {'group': 'smooth_linear'},
             {'group': 'smooth_ctor'}]
     cfgs += [{'group': 'welford_explicit', 'n': n, '_cost': n} for n in range(1, nw + 1)]
@@ -206,3 +207,53 @@ def _smooth_explicit(env, cfg):
         env.assume(And(lo <= 0, hi >= 0, *[lo <= v for v in vs], *[v <= hi for v in vs]))
         env.claim(f"hull_n{n}", And(lo <= t.get(), t.get() <= hi))
     env.canary('closed_form_shifted', eq(t.get(), closed + 1))
+
+
+# ---- the reported statistics do not depend on which of them was read before, or in which order -------------------------
+
+READS = ['mean', 'var', 'std', 'get']
+
+
+def _read(env, t, what):
+    return guarded(env, what, (lambda: t.get()) if what == 'get' else (lambda: getattr(t, what)))
+
+
+def _welford_reads(env, cfg):
+    """an update followed by reads in an arbitrary order, after an arbitrary pattern of earlier reads: every read reports the
+    statistic of the CURRENT state (what welford_step proves about the state is not repeated here)"""
+    t = WelfordTracker()
+    N = env.int('N')
+    mean, ssq = env.real('mean'), env.real('ssq')
+    env.assume(And(N >= 1, ssq >= 0))
+    t.N, t.tracked_value, t.sum_squares = N, mean, ssq
+    orders = [(), ('var',), ('std',), ('var', 'std'), ('std', 'var'), ('mean', 'std', 'var', 'std')]
+
+    def check(tag):
+        order = orders[env.choose(len(orders), label=('reads', tag))]
+        for what in order:
+            got = _read(env, t, what)
+            if what in ('mean', 'get'):
+                env.claim(f"read_{what}_{tag}", eq(got, t.tracked_value), detail=f"read order {order}")
+            elif what == 'var':
+                env.claim(f"read_var_{tag}", eq(got * t.N, t.sum_squares), detail=f"read order {order}")
+            else:
+                env.claim(f"read_std_{tag}", And(got >= 0, eq(got * got * t.N, t.sum_squares)), detail=f"read order {order}")
+    check('before')
+    guarded(env, 'update', t.update, env.real('v0'))
+    check('after')
+
+
+def _smooth_reads(env, cfg):
+    alpha = env.real('alpha')
+    env.assume(And(alpha >= 0, alpha <= 1))
+    t = _mk_smooth(env, alpha)
+    val = env.real('val')
+    t.tracked_value = val
+    exp = val
+    for i in range(3):
+        if env.choose(2, label=('read', i)):
+            env.claim('read_between_updates', And(eq(t.get(), exp), eq(t(), exp)))
+        v = env.real(f"v{i}")
+        guarded(env, 'update', t.update, v)
+        exp = (1 - alpha) * exp + alpha * v
+    env.claim('read_after_updates', And(eq(t.get(), exp), eq(t(), exp)))
